@@ -45,11 +45,14 @@ package supervisor
 // C19 ("carrying its true exit status"): what Wait returns may be an error of the output copy (or the expiry of the wait bound)
 // although the process exited normally; the status is decoded from the process state whenever the process was waited for
 //@ event WaitStatusDecoded = call os.(*ProcessState).Sys
+//@ event ExitCodeRead = ret syscall.(WaitStatus).ExitStatus
+//@ event SignalRead = ret syscall.(WaitStatus).Signal
 //@ func (*LocalSupervisor).Exec$1
 //@   ensures [C19: the-status-is-the-process-state's-whatever-the-output-copy-reported] command.ProcessState != nil ==> delta(WaitStatusDecoded) == 1 && lastarg(WaitStatusDecoded, 0) == command.ProcessState
 //@   ensures [exactly-one-event-after-the-wait] delta(ProcWaited) == 1 && delta(ExitEventSent) == 1 && first(ProcWaited) < first(ExitEventSent)
 //@   ensures [status-or-signal-not-both] (lastarg(ExitEventSent, 0).Event.Signo == nil) != (lastarg(ExitEventSent, 0).Event.ExitStatus == nil)
-//@   ensures [clean-exit-is-status-zero] lastret(ProcWaited) == nil ==> lastarg(ExitEventSent, 0).Event.ExitStatus != nil && deref(lastarg(ExitEventSent, 0).Event.ExitStatus) == 0
+//@   ensures [the-event-carries-what-the-wait-status-says] delta(ExitCodeRead) == 1 ==> (lastret(ExitCodeRead) >= 0 ==> lastarg(ExitEventSent, 0).Event.ExitStatus != nil && (lastret(ExitCodeRead) < 2147483648 ==> deref(lastarg(ExitEventSent, 0).Event.ExitStatus) == lastret(ExitCodeRead)) && lastarg(ExitEventSent, 0).Event.Signo == nil) && (lastret(ExitCodeRead) < 0 ==> delta(SignalRead) == 1 && lastarg(ExitEventSent, 0).Event.Signo != nil && lastarg(ExitEventSent, 0).Event.ExitStatus == nil)
+//@   ensures [without-a-process-state-a-clean-wait-is-status-zero] command.ProcessState == nil && lastret(ProcWaited) == nil ==> lastarg(ExitEventSent, 0).Event.ExitStatus != nil && deref(lastarg(ExitEventSent, 0).Event.ExitStatus) == 0
 
 // kill: success only once the termination channel was seen closed; SIGKILL to the whole group; errors for a past deadline or an outlived one
 //@ func kill
